@@ -2,6 +2,7 @@ package checks
 
 import (
 	"context"
+	"errors"
 	"fmt"
 	"github.com/lightninglabs/lightning-node-connect/mailbox"
 	"math/rand"
@@ -16,6 +17,7 @@ import (
 	"verifharness/mon"
 	"verifharness/sim"
 
+	"github.com/btcsuite/btclog/v2"
 	"github.com/lightninglabs/lightning-node-connect/gbn"
 )
 
@@ -61,6 +63,10 @@ func runC12(c *mon.Case) {
 	}
 	if c.Idx%16 == 14 {
 		runC12SelfClose(c)
+		return
+	}
+	if c.Idx%60 == 29 {
+		runC12MailboxCancel(c)
 		return
 	}
 	if c.Idx%240 == 101 {
@@ -597,6 +603,26 @@ func runC12BlockSend(c *mon.Case) {
 	if who != "S" {
 		wg.Add(1)
 		go closeOne("C", p.C)
+		if rng.Intn(2) == 0 {
+			// A second Close while the first is still busy with its FIN
+			// (the transport blocks): whenever it returns, the connection
+			// must be down - in particular its receive loop must not take
+			// another packet from the transport.
+			wg.Add(1)
+			stagger := time.Duration(50+rng.Intn(300)) * time.Millisecond
+			go func() {
+				defer wg.Done()
+				time.Sleep(stagger)
+				_ = p.C.Close()
+				_, _, _, d0 := p.S2C.Stats()
+				p.S2C.Inject([]byte{sim.TAck, 0})
+				time.Sleep(100 * time.Millisecond)
+				if _, _, _, d1 := p.S2C.Stats(); d1 > d0 {
+					c.Shard.Violate("close-returned-early", "a second Close call returned while the connection was still running: a packet that arrived after it had returned was taken from the transport by the connection's receive loop (the first Close was still waiting for its FIN write)", map[string]any{"conf": conf.String(), "who": who})
+				}
+				c.Shard.Count("staggered_second_closes", 1)
+			}()
+		}
 	}
 	if who != "C" {
 		wg.Add(1)
@@ -885,4 +911,63 @@ func runC12SelfClose(c *mon.Case) {
 		cancel()
 		p.CloseAll()
 	})
+}
+
+// runC12MailboxCancel: a mailbox client connection is being set up while the
+// relay refuses to open one of its streams (the receive stream, the send
+// stream, or both); the attempt is then cancelled through its context - the
+// only handle that exists before the constructor returns. The constructor must
+// return within a bounded time, and whatever goroutines of the attempt are
+// still winding down must do so quietly (a panic in one of them ends the
+// worker process and is attributed to this case). Real time.
+func runC12MailboxCancel(c *mon.Case) {
+	rng := rand.New(rand.NewSource(c.Seed))
+	relay := sim.NewRelay()
+	relay.KeepLog, relay.KeepMsg = false, false
+	var sid [64]byte
+	rng.Read(sid[:])
+	mode := rng.Intn(3)
+	refuse := errors.New("rpc error: code = Unavailable desc = relay refuses the stream (injected)")
+	relay.Fault = func(op sim.RelayOp) sim.RelayAction {
+		if (op.Kind == "recvstream" && mode != 1) || (op.Kind == "sendstream" && mode != 0) {
+			return sim.RelayAction{Fail: refuse}
+		}
+		return sim.RelayAction{}
+	}
+	ctx, cancel := context.WithCancel(context.Background())
+	defer cancel()
+	type ret struct {
+		cc  *mailbox.ClientConn
+		err error
+	}
+	done := make(chan ret, 1)
+	go func() {
+		cc, err := mailbox.NewClientConn(ctx, sid, "relay", relay, btclog.Disabled, func(mailbox.ClientStatus) {})
+		done <- ret{cc, err}
+	}()
+	time.Sleep(time.Duration(300+rng.Intn(3000)) * time.Millisecond)
+	t0 := time.Now()
+	cancel()
+	rep := map[string]any{"kind": "mailbox-cancel", "refused": []string{"receive stream", "send stream", "both streams"}[mode]}
+	select {
+	case r := <-done:
+		c.Shard.Max("max_mailbox_cancel_return_ms", time.Since(t0).Milliseconds())
+		if r.cc != nil {
+			closed := make(chan struct{})
+			go func() { _ = r.cc.Close(); close(closed) }()
+			select {
+			case <-closed:
+			case <-time.After(20 * time.Second):
+				c.Shard.Violate("close-hangs|mailbox-cancel", fmt.Sprintf("Close of a mailbox client connection whose set-up was cancelled (relay refused the %s) had not returned after 20 s", rep["refused"]), rep)
+				mon.FlushAndExit(c.Shard)
+			}
+		}
+	case <-time.After(20 * time.Second):
+		c.Shard.Violate("handshake-cancel-hangs|mailbox", fmt.Sprintf("NewClientConn had not returned 20 s after its context was cancelled (relay refused the %s)", rep["refused"]), rep)
+		mon.FlushAndExit(c.Shard)
+	}
+	// goroutines of the attempt that are still winding down get their time
+	time.Sleep(3 * time.Second)
+	c.Shard.Count("mailbox_cancel_cases", 1)
+	c.Shard.Eval(fmt.Sprintf("mailbox-cancel|%d", mode))
 }
